@@ -84,6 +84,12 @@ func (e *sched) step(st *sState, in ssa.Instruction) {
 		if p, ok := addr.(sPtr); ok {
 			if arr, ok := st.heap[p.id].(*hArray); ok && p.idx >= 0 && p.idx < len(arr.elems) {
 				arr.elems[p.idx] = v
+				if e.lenient {
+					if e.cellStoreStep == nil {
+						e.cellStoreStep = map[int]int{}
+					}
+					e.cellStoreStep[p.id] = e.steps
+				}
 				if e.ghostArr != 0 && p.id == e.ghostArr {
 					e.ghostStore(st, p.idx, v, e.p.InstrPos(x))
 				}
